@@ -81,9 +81,36 @@ func (s *absState) String() string {
 
 // consistent: the ordering variables admit a total preorder (pairwise composition over all triples).
 func (s *absState) consistent() bool {
+	constInt := func(x string) (int64, bool) {
+		if !strings.HasPrefix(x, "const:") {
+			return 0, false
+		}
+		var v int64
+		if _, err := fmt.Sscanf(x[len("const:"):], "%d", &v); err != nil {
+			return 0, false
+		}
+		return v, true
+	}
 	rel := func(a, b string) (ordRel, bool) {
 		if a == b {
 			return relEQ, true
+		}
+		if strings.HasPrefix(a, "const:\"") && strings.HasPrefix(b, "const:\"") {
+			if a < b {
+				return relLT, true
+			}
+			return relGT, true
+		}
+		if x, ok := constInt(a); ok {
+			if y, ok := constInt(b); ok {
+				switch {
+				case x < y:
+					return relLT, true
+				case x > y:
+					return relGT, true
+				}
+				return relEQ, true
+			}
 		}
 		if a < b {
 			r, ok := s.ord[a+" ⋈ "+b]
@@ -166,13 +193,14 @@ type absLeaf struct {
 }
 
 type absExec struct {
-	p       *Prog
-	tuples  map[*ssa.Function][][]bool
-	maxLeaf int
+	p         *Prog
+	tuples    map[*ssa.Function][][]bool
+	maxLeaf   int
+	maxInline int // helpers are executed in place up to this call depth (0: every helper result is opaque)
 }
 
 func newAbsExec(p *Prog) *absExec {
-	return &absExec{p: p, tuples: map[*ssa.Function][][]bool{}, maxLeaf: 4096}
+	return &absExec{p: p, tuples: map[*ssa.Function][][]bool{}, maxLeaf: 4096, maxInline: 4}
 }
 
 // explore enumerates the leaves of fn (started at block start; nil = entry) under params, from state st.
@@ -679,7 +707,7 @@ func (f *absFrame) evalCall(c *ssa.Call) absVal {
 			return absVal{Kind: "int", I: int64(rel) - 1}
 		}
 		// small helpers are executed in place
-		if f.depth < 4 && len(cal.Blocks) > 0 && !hasLoop(cal) && sig.Results().Len() == 1 && !isTestdataOrMock(cal) && strings.HasPrefix(funcPkgPath(cal), modPath) {
+		if f.depth < f.e.maxInline && len(cal.Blocks) > 0 && !hasLoop(cal) && sig.Results().Len() == 1 && !isTestdataOrMock(cal) && strings.HasPrefix(funcPkgPath(cal), modPath) {
 			var ps []absVal
 			for _, a := range com.Args {
 				av := f.eval(a)
